@@ -33,6 +33,8 @@ lazy_static! {
 }
 
 pub(crate) fn exec(var: Variable) -> Variable {
+    #[cfg(feature = "verif")]
+    let _helper = crate::verif::helper_scope();
     let element_type = var.as_type().element_type().unwrap();
     let default = Variable::of_type(&element_type).unwrap_or(Variable::Void);
     let result = ITER
